@@ -32,6 +32,10 @@ RME = f"{ENC}/reed_muller_code.py"
 BCH = f"{ENC}/bch_code.py"
 
 
+#: names of model tables (as opposed to batches of inputs): a loop over their rows is not a loop over the batch
+TABLE_LIKE = {"points", "constellation", "patterns", "bit_patterns", "codebook", "codewords", "cws", "table", "levels", "syndromes", "generator_matrix", "check_matrix", "H", "G", "msgs", "messages"}
+
+
 def batch_index_taint(rep: Report, fi: FuncInfo) -> int:
     """C20.2 / C02.1: the index of a loop over the batch may flow only into subscripts."""
     set_parents(fi.node)
@@ -41,6 +45,17 @@ def batch_index_taint(rep: Report, fi: FuncInfo) -> int:
         if not (it.startswith("range(batch_size") or it.startswith("range(B)") or "shape[0]" in it or "size(0)" in it):
             continue
         if not isinstance(lp.target, ast.Name):
+            continue
+        # a loop over the ROWS of the batch: range(n) / range(0, n); a stepped range walks through chunks (of a table or
+        # of the batch) and its index legitimately enters offsets; the extent of a table of the model is not a batch either
+        if isinstance(lp.iter, ast.Call) and (len(lp.iter.args) == 3 or (len(lp.iter.args) == 2 and not (isinstance(lp.iter.args[0], ast.Constant) and lp.iter.args[0].value == 0))):
+            continue
+        ext_ = lp.iter.args[-1] if isinstance(lp.iter, ast.Call) and lp.iter.args else None
+        owner_ = ext_
+        while isinstance(owner_, (ast.Subscript, ast.Call, ast.Attribute)) and not (isinstance(owner_, ast.Attribute) and isinstance(owner_.value, ast.Name) and owner_.attr not in ("shape", "size")):
+            owner_ = owner_.value if isinstance(owner_, (ast.Subscript, ast.Attribute)) else owner_.func
+        otxt_ = unparse(owner_) if owner_ is not None else ""
+        if otxt_.startswith("self.") or otxt_.split(".")[0] in TABLE_LIKE:
             continue
         iv = lp.target.id
         n += 1
